@@ -421,6 +421,262 @@ def apply_stock(model, stock):
     model.ref_bem_vector, model.ref_sch_vector = bems, schs
 
 
+# ------------------------------------------------------------------ rural rows as text -> humidity (float level)
+def weather_rows_oracle(chk):
+    """The REAL (plain float) Weather class on generated rural rows whose humidity-relevant cells carry decimals and
+    every spelling the package reads; the property itself on what it stores: the humidity ratio of a row is the
+    humidity ratio of the air state (T, RH, P) written in the row, and what would be written for any canyon
+    temperature implies that same humidity ratio."""
+    import t1_util as T1
+    from uwg.weather import Weather
+    import uwg.psychrometrics as up
+    rng = chk.rng
+    n = 400 if chk.tier == 'quick' else 4000
+    rows, kinds = [], {}
+    rh_edge = ['0.4', '1', '1.0', '99.99', '100', '100.0', '100.5', '101', '103', '105.5', '110', '95.38', '94.49',
+               '0.75', '50.5', ' 87', '8.7e1', '+60']
+    p_edge = ['100,900', '101,325', '99950.5', '1.009E5', ' 100900', '31000', '120000', '60000.25']
+    t_edge = ['-0.0', '0.0', '-0.04', '0.05', '24.46', '-9.95', '+12.5', ' 7.3', '1.25e1', '-40', '50', '-70.0', '70.0']
+    for i in range(n):
+        k = rng.random()
+        pt, pr, pp = rng.choice([0, 1, 2, 2]), rng.choice([0, 1, 2, 2, 3, 4]), rng.choice([0, 0, 1, 2])
+        t = dtext(dec(rng, -40, 50, pt), pt) if k > 0.15 else rng.choice(t_edge)
+        rh = dtext(dec(rng, 1, 110, pr), pr) if rng.random() > 0.2 else rng.choice(rh_edge)
+        pres = dtext(dec(rng, 60000, 108000, pp), pp) if rng.random() > 0.15 else rng.choice(p_edge)
+        rows.append((t, rh, pres))
+        kind = ('RH fractional' if '.' in rh and float(rh) != int(float(rh)) else 'RH whole') + \
+            (', RH > 100' if float(rh) > 100 else '') + (', P with separator' if ',' in pres else '')
+        kinds[kind] = kinds.get(kind, 0) + 1
+    epw = os.path.join(chk.work(), 't1_rows.epw')
+    with open(epw, 'w', newline='') as f:
+        import csv
+        wr = csv.writer(f, lineterminator='\n')
+        wr.writerow(['LOCATION', 'Generated', '-', '-', '-', '0', '0', '0', '0', '0'])
+        for i in range(7):
+            wr.writerow(['HEADER%d' % i, '0'])
+        for (t, rh, pres) in rows:
+            wr.writerow(['2000', '1', '1', '1', '60', 'x', t, '0', rh, pres, '0', '0', '300', '0', '0', '0', '0',
+                         '0', '0', '0', '90', '1.5'] + ['0'] * 13)
+    bad = 0
+
+    def viol(what, case, observed, expected):
+        nonlocal bad
+        bad += 1
+        if bad <= 2:
+            chk.violation('impl-violation', what, case=case, observed=observed, expected=expected,
+                          how='a rural EPW with this data row (cells 6, 8, 9); uwg.weather.Weather(epw, 8, 8)')
+    try:
+        wx = Weather(epw, 8, 8 + n - 1)
+    except Exception as e:  # noqa: BLE001
+        viol('Weather() reads a rural file whose cells are legal numbers', {'rows (T, RH, P)': rows[:5]},
+             '%s: %s' % (type(e).__name__, str(e)[:200]), 'the rows read')
+        wx = None
+    for i, (t, rh, pres) in enumerate(rows if wx else []):
+        T, RH, P = T1.num(t), T1.num(rh), T1.num(pres)
+        case = {'rural row cells': {'dry bulb': t, 'relative humidity': rh, 'pressure': pres}, 'row': i}
+        got = (wx.staTemp[i], wx.staRhum[i], wx.staPres[i])
+        if got != (T + 273.15, RH, P):
+            viol('the forcing holds the dry bulb / relative humidity / pressure written in the rural row', case,
+                 {'staTemp': got[0], 'staRhum': got[1], 'staPres': got[2]},
+                 {'staTemp': T + 273.15, 'staRhum': RH, 'staPres': P})
+            continue
+        w_ind = T1.ind_hum(RH, T, P)
+        if wx.staHum[i] != up.hum_from_rhum_temp(RH, T, P) or abs(wx.staHum[i] - w_ind) > 1e-12 * abs(w_ind):
+            viol('the humidity ratio of the forcing is the humidity ratio of the air state written in the rural row '
+                 '(moisture neither added nor removed)', case,
+                 'staHum = %r (%.4f %% off)' % (wx.staHum[i], 100 * (wx.staHum[i] / w_ind - 1) if w_ind else 0),
+                 'hum(RH=%r, T=%r, P=%r) = %r' % (RH, T, P, w_ind))
+            continue
+        if wx.staHum[i] <= 0:
+            continue
+        # what would be written for a canyon temperature Tc implies the rural humidity ratio
+        Tc = T + rng.choice([0.0, 0.7, 2.3, -1.1])
+        try:
+            phi = up.psychrometrics(Tc + 273.15, wx.staHum[i], P)[2]
+            w_back = up.hum_from_rhum_temp(phi, Tc, P)
+        except Exception as e:  # noqa: BLE001
+            viol('psychrometrics defined on the humidity of a legal rural row', case, repr(e), 'numbers')
+            continue
+        if abs(w_back / (RATIO * w_ind) - 1.0) > 1e-9:
+            viol('RH computed for the canyon from the forcing humidity implies the rural humidity ratio', case,
+                 'hum(phi, Tc=%r, P) = %r' % (Tc, w_back), '%r x %r' % (RATIO, w_ind))
+    chk.direct('Weather(rows as text)->staHum (float oracle)', n, n,
+               'the plain uwg.weather.Weather on a generated rural file whose dry-bulb / RH / pressure cells carry 0..4 '
+               'decimals (as uwg itself writes them at epw_precision >= 1), RH from 0.4 to 110 %, "+", blanks, '
+               'exponents and thousands separators: stored T / RH / P equal the numbers in the cells, staHum is '
+               'bit-identical to hum_from_rhum_temp of those numbers and within 1e-12 of an independent formula; the '
+               'RH psychrometrics gives for a canyon temperature implies 0.62198/0.621945 x that humidity ratio',
+               mismatches=bad, branches=kinds)
+    return bad
+
+
+# ------------------------------------------------------------------ records -> written cells (real write_epw)
+def steer_rh(up, T, P, tdp_target):
+    """RH (4 decimals, text) at which the dew point of air (T, RH, P) is tdp_target: bisection on the real routines
+    (dew point is increasing in the humidity ratio, which is increasing in RH)."""
+    lo, hi = 0.5, 110.0
+    for _ in range(60):
+        mid = 0.5 * (lo + hi)
+        tdp = up.psychrometrics(T + 273.15, up.hum_from_rhum_temp(mid, T, P), P)[4]
+        if tdp < tdp_target:
+            lo = mid
+        else:
+            hi = mid
+    return '%.4f' % (0.5 * (lo + hi))
+
+
+def written_cells_oracle(chk):
+    """The REAL write_epw driven with records computed by the real psychrometrics from rural rows, for every
+    epw_precision: canyon temperatures and dew points on both sides of 0 C and of every rounding boundary of the
+    precision. Judged by the property: the written (T, RH, P) imply the rural humidity ratio within the rounding of
+    the written digits; written T / RH / dew point are the recorded values rounded to the precision."""
+    import csv
+    import types
+    import t1_util as T1
+    from uwg import UWG
+    import uwg.psychrometrics as up
+    rng = chk.rng
+    precs = list(range(0, 9)) + [12, 16]
+    if chk.tier == 'thorough':
+        precs += list(range(9, 21))
+    bad, total, near = 0, 0, {}
+
+    def viol(what, case, observed, expected):
+        nonlocal bad
+        bad += 1
+        if bad <= 3:
+            chk.violation('impl-violation', what, case=case, observed=observed, expected=expected,
+                          how='harness/props/c09.py written_cells_oracle: rural row -> hum_from_rhum_temp -> '
+                              'psychrometrics(canyon T) -> UCMData -> real write_epw at this precision')
+    for p in precs:
+        u = 10.0 ** (-p)
+        # canyon temperatures (C): around zero, around the rounding boundaries of this precision, ordinary
+        tcs = [0.0475, -0.0475, -0.05, 0.05, -0.0312, -0.09, -0.099, -0.1, -0.11, 0.09, -0.004, 0.004, -0.5, 0.5,
+               -1.0, -9.95, 9.95, -0.4 * u, 0.4 * u, -0.49 * u, -0.51 * u, -1.4 * u, 1.5 * u, -10.0, 24.4]
+        tcs += [rng.uniform(-0.1, 0.0) for _ in range(6)] + [rng.uniform(-30, 40) for _ in range(8)]
+        # dew points steered through zero by the rural RH (rural T 5 C)
+        tdps = [-0.09, -0.05, -0.0475, -0.0312, -0.011, -0.004, 0.004, 0.05, -0.4 * u, -0.6 * u] + \
+               [rng.uniform(-0.1, 0.0) for _ in range(4)]
+        rows, states = [], []
+        for k, tc in enumerate(tcs):
+            t_r = '%.1f' % (tc - rng.choice([0.0, 0.6, 1.3]))
+            rh = rng.choice(['75', '100', '95.38', '40', '101', '66.6'])
+            rows.append((t_r, rh, rng.choice(['101325', '100900', '98000'])))
+            states.append(tc)
+        for tdp in tdps:
+            pr = rng.choice(['101325', '100900'])
+            rows.append(('5.0', steer_rh(up, 5.0, float(pr), tdp), pr))
+            states.append(rng.choice([5.4, 6.1, 4.2]))
+        epw = os.path.join(chk.work(), 't1_cells_p%d.epw' % p)
+        write_rows_epw(epw, rows)
+        m = UWG(epw, new_epw_dir=chk.work(), new_epw_name='t1_cells_out_p%d.epw' % p)
+        m._read_epw()
+        recs = []
+        for (t, rh, pr), tc in zip(rows, states):
+            T, RH, P = float(t), float(rh), float(pr)
+            w = up.hum_from_rhum_temp(RH, T, P)
+            r = up.psychrometrics(tc + 273.15, w, P)
+            recs.append((T, RH, P, w, tc + 273.15, r[2], r[4]))
+        m.UCMData = [types.SimpleNamespace(canTemp=r[4], canRHum=r[5], Tdp=r[6]) for r in recs]
+        m.WeatherData = [types.SimpleNamespace(wind=1.5) for _ in recs]
+        m.simTime = types.SimpleNamespace(timeInitial=8)
+        m.epw_precision = p
+        try:
+            with contextlib.redirect_stdout(io.StringIO()):
+                m.write_epw()
+            with open(m.new_epw_path, newline='') as f:
+                written = list(csv.reader(f))[8:]
+        except Exception as e:  # noqa: BLE001
+            viol('write_epw on records of legal rural rows', {'epw_precision': p}, repr(e), 'a file')
+            continue
+        d = 0.5 * u * (1 + 1e-9) + 1e-12
+        for i, ((t, rh, pr), rec) in enumerate(zip(rows, recs)):
+            T, RH, P, w, canK, phi, tdp = rec
+            total += 1
+            wr = written[i]
+            case = {'epw_precision': p, 'rural row cells': {'dry bulb': t, 'relative humidity': rh, 'pressure': pr},
+                    'record': {'canTemp_K': repr(canK), 'canTemp_C': repr(canK - 273.15), 'canRHum': repr(phi),
+                               'Tdp': repr(tdp)}, 'written cells (T, Tdp, RH, P)': wr[6:10]}
+            for name, val in (('canyon temperature', canK - 273.15), ('dew point', tdp)):
+                if -0.1 < val < 0:
+                    near['%s in (-0.1, 0) at p=%d' % (name, p)] = near.get('%s in (-0.1, 0) at p=%d' % (name, p), 0) + 1
+            try:
+                wT, wTdp, wRH = float(wr[6]), float(wr[7]), float(wr[8])
+                lo = up.hum_from_rhum_temp(max(wRH - d, 0.0), wT - d, P)
+                hi = up.hum_from_rhum_temp(wRH + d, wT + d, P)
+            except Exception as e:  # noqa: BLE001
+                viol('written humidity fields parse and lie in the routine domain', case, repr(e), 'numbers')
+                continue
+            target = RATIO * w
+            if wr[9] != pr:
+                viol('written pressure column unchanged', case, wr[9], pr)
+            elif abs(w - T1.ind_hum(RH, T, P)) > 1e-12 * w:
+                viol('hum_from_rhum_temp of the rural row against an independent formula', case, w,
+                     T1.ind_hum(RH, T, P))
+            elif not (lo <= target * (1 + 1e-10) and target * (1 - 1e-10) <= hi):
+                viol('written (T,RH,P) imply the rural humidity ratio (moisture conserved) - written cells next to 0 C '
+                     'and to the rounding boundaries of every precision', case,
+                     'hum(written RH=%s, T=%s, P=%s) in [%.12g, %.12g] (%+.3f %% .. %+.3f %% of the rural value)' % (
+                         wr[8], wr[6], pr, lo, hi, 100 * (lo / target - 1), 100 * (hi / target - 1)),
+                     'contains ratio*hum(rural RH=%s, T=%s, P=%s) = %.12g' % (rh, t, pr, target))
+            elif abs(wT - (canK - 273.15)) > d or abs(wRH - phi) > d:
+                viol('written dry bulb / RH are the recorded values rounded to the precision', case,
+                     {'T': wr[6], 'RH': wr[8]}, {'T': canK - 273.15, 'RH': phi})
+            elif abs(wTdp - tdp) > d:
+                viol('the written dew point is the dew point of the rural humidity ratio (rounded to the precision)',
+                     case, wr[7], tdp)
+    chk.direct('write_epw(records near 0 C and rounding boundaries, every precision)', total, total,
+               'the REAL write_epw on records computed by the real hum_from_rhum_temp / psychrometrics from rural rows, '
+               'for epw_precision 0..8, 12, 16 (thorough: 0..20): canyon temperatures on both sides of 0 C (+-0.004 .. '
+               '+-0.11, random in (-0.1, 0)), at +-0.4 / 0.49 / 0.51 / 1.4 units of the last place, ordinary ones; dew '
+               'points steered through (-0.1, 0.05) by a fractional rural RH found by bisection. Per written row: '
+               'ratio*w_rural inside [hum(RH-d,T-d,P), hum(RH+d,T+d,P)] for the written cells (d = half a unit of the '
+               'last place), written T / RH / dew point within d of the recorded values, pressure unchanged',
+               mismatches=bad, branches=near)
+    return bad
+
+
+def t1_variant(chk, name, rows, month, day, nday, param_in, out_dir):
+    """Rural files of the third round (rows: parsed shipped file). Returns the rows to simulate."""
+    import s1_util as S
+    import t1_util as T1
+    import uwg.psychrometrics as up
+    first = 8 + 24 * S.doy0(month, day)
+    if name == 't1:decimals2':          # humidity-relevant columns with two decimals, as uwg writes them
+        return T1.decimal_columns(S.copy_rows(rows), places=2)
+    if name == 't1:decimals1':
+        return T1.decimal_columns(S.copy_rows(rows), places=1)
+    if name == 't1:uwg-output':         # a file morphed by uwg itself (precision 2) used as the rural file
+        from uwg import UWG
+        src = S.save_epw(rows, os.path.join(out_dir, 'first_rural.epw'))
+        m = UWG.from_param_file(param_in, epw_path=src, new_epw_dir=out_dir, new_epw_name='first_out.epw')
+        m.month, m.day, m.nday = month, day, nday
+        m.epw_precision = 2
+        with contextlib.redirect_stdout(io.StringIO()):
+            m.generate()
+            m.simulate()
+            m.write_epw()
+        return S.load_epw(m.new_epw_path)
+    if name == 't1:dewpoint-through-zero':
+        # rural RH (fractional) steered so that the dew point of hour n is -0.115 + 0.01 n C (canyon air is the
+        # rural humidity ratio: the written dew points step through (-0.1, 0) in hundredths)
+        out = S.copy_rows(rows)
+        for n in range(24 * nday):
+            r = out[first + n]
+            r[8] = steer_rh(up, float(r[6]), float(r[9]), -0.115 + 0.01 * (n % 24) + 0.003 * (n // 24))
+        return out
+    if name == 't1:drybulb-through-zero':
+        # a cold spell: rural dry bulb ramps from -3.2 C upwards by 0.07 K per hour (canyon temperature crosses 0)
+        out = S.copy_rows(rows)
+        for n in range(24 * nday):
+            r = out[first + n]
+            r[6] = '%.2f' % (-3.2 + 0.07 * n)
+            r[7] = '%.2f' % (-5.0 + 0.07 * n)
+            r[8] = '%.1f' % (78.5 + (n % 5))
+        return out
+    raise KeyError(name)
+
+
 def simulate_and_check(chk, precision, month, day, nday, param=SGP_PARAM, epw=SGP_EPW, variant=None, stock=None):
     """variant: header / leap-file variant of s1_util applied to the rural file; stock: key of STOCKS."""
     from uwg import UWG
@@ -429,7 +685,16 @@ def simulate_and_check(chk, precision, month, day, nday, param=SGP_PARAM, epw=SG
     epw_in = find_file(*epw)
     param_in = find_file(*param)
     out_dir = tempfile.mkdtemp(prefix='c09-', dir=chk.work())
-    if variant:
+    if variant and variant.startswith('t1:'):
+        import s1_util as S
+        try:
+            epw_in = S.save_epw(t1_variant(chk, variant, S.load_epw(epw_in), month, day, nday, param_in, out_dir),
+                                os.path.join(out_dir, 'rural_' + os.path.basename(epw_in)))
+        except Exception as e:  # noqa: BLE001 (the preparatory run stopped by the model's own fail-stop)
+            chk.notes.append('C09 rural file %s not built: %s: %s' % (variant, type(e).__name__, str(e)[:100]))
+            shutil.rmtree(out_dir, ignore_errors=True)
+            return 0, 0, 0.0
+    elif variant:
         import s1_util as S
         epw_in = S.save_epw(S.apply_variant(S.load_epw(epw_in), variant),
                             os.path.join(out_dir, 'rural_' + os.path.basename(epw_in)))
@@ -517,6 +782,10 @@ def simulate_and_check(chk, precision, month, day, nday, param=SGP_PARAM, epw=SG
             continue
         if wr[9] != rr[9]:
             viol('written pressure column unchanged', case, wr[9], rr[9])
+        for nm, val in (('dry bulb', ucm.canTemp - 273.15), ('dew point', ref[4])):
+            if -0.1 < val < 0 and precision >= 2:
+                key = 'simulated_hours_with_%s_in_(-0.1,0)_at_precision>=2' % nm.replace(' ', '_')
+                chk.measurements[key] = chk.measurements.get(key, 0) + 1
         want_tdp = '{0:.{1}f}'.format(ref[4], precision)
         if wr[7] != want_tdp:
             viol('written dew point = Tdp(rural humidity ratio, P)', case, wr[7], want_tdp)
@@ -556,6 +825,8 @@ def run(chk):
         chk.leanchecker([MODULE])
     exact_tie(chk)
     float_oracles(chk)
+    weather_rows_oracle(chk)
+    written_cells_oracle(chk)
     # real simulations: the default 1 decimal, and 4 decimals where the interval is tight;
     # Singapore (warm, humid) and Toronto in January (dew points below the correlation's range)
     rnd = chk.rng
@@ -585,7 +856,17 @@ def run(chk):
                 # custom reference buildings with a WATER-cooled condenser, in hours with cooling (Singapore)
                 (4, rnd.randint(3, 10), rnd.randint(1, 28), 1, SGP_PARAM, SGP_EPW, None, water[0]),
                 (4, rnd.randint(1, 12), rnd.randint(1, 28), 1, SGP_PARAM, SGP_EPW, None, rnd.choice(water[1:]))]
+    # rural files whose humidity-relevant cells carry decimals (synthetic, and a file morphed by uwg itself used as
+    # the rural file of a second run), dew points / canyon temperatures stepping through 0 C at 2-3 decimals
+    windows += [(2, rnd.randint(1, 12), rnd.randint(1, 28), 1, SGP_PARAM, SGP_EPW, 't1:decimals2', None),
+                (rnd.choice([2, 3]), rnd.randint(1, 12), rnd.randint(1, 28), 1, SGP_PARAM, SGP_EPW, 't1:uwg-output', None),
+                (2, rnd.randint(1, 12), rnd.randint(1, 28), 1, SGP_PARAM, SGP_EPW, 't1:dewpoint-through-zero', None),
+                (rnd.choice([2, 3]), 1, rnd.randint(2, 25), 2, TORONTO_PARAM, OTHER_EPW[0], 't1:drybulb-through-zero', None)]
     if chk.tier == 'thorough':
+        windows += [(4, rnd.randint(1, 12), rnd.randint(1, 28), 2, SGP_PARAM, e, 't1:decimals1', None) for e in OTHER_EPW]
+        windows += [(3, 2, rnd.randint(1, 20), 3, TORONTO_PARAM, OTHER_EPW[2], 't1:drybulb-through-zero', None),
+                    (3, rnd.randint(1, 12), rnd.randint(1, 28), 2, SGP_PARAM, SGP_EPW, 't1:dewpoint-through-zero', None),
+                    (4, rnd.randint(1, 12), rnd.randint(1, 28), 2, TORONTO_PARAM, OTHER_EPW[0], 't1:uwg-output', None)]
         windows += [(1, 7, 15, 3, SGP_PARAM, SGP_EPW, None, None), (4, 12, 29, 3, SGP_PARAM, SGP_EPW, None, None),
                     (2, 3, 30, 2, TORONTO_PARAM, OTHER_EPW[0], None, None)]
         for e in OTHER_EPW:
@@ -618,7 +899,11 @@ def run(chk):
                'File variants: 8784-row leap files (windows after / across 28 Feb; only row-by-row consistency is '
                'demanded: the row written is the row read), leap flag / actual-year / DST+holidays headers. Stocks: '
                'custom reference buildings made from DOE archetypes through ref_bem_vector/ref_sch_vector with '
-               'condtype WATER (alone, beside DOE buildings, under a new type name, beside a custom AIR building)'
+               'condtype WATER (alone, beside DOE buildings, under a new type name, beside a custom AIR building). '
+               'Rural files with decimals (t1:decimals2 = dry bulb / dew point / RH with two decimals and fractional '
+               'pressures; t1:uwg-output = a file morphed by uwg itself at precision 2 used as the rural file), rural RH '
+               'steered so that the written dew point steps through (-0.1, 0) in hundredths, a cold spell whose dry '
+               'bulb ramps through 0 C, written with 2-3 decimals'
                % (wtxt,),
                mismatches=totbad, branches={'records': tot, 'windows': len(windows)})
     chk.assumptions.append(
@@ -648,6 +933,10 @@ def replay(chk, path):
         epw = next((q for q in [SGP_EPW] + OTHER_EPW if q[-1] == case.get('epw')), SGP_EPW)
         simulate_and_check(chk, case['epw_precision'], case['month'], case['day'], case['nday'],
                            prm, epw, case.get('epw_variant'), case.get('stock'))
+    elif isinstance(case, dict) and 'rural row cells' in case:
+        # the families of the float-level row / written-cell oracles are re-explored (same generators)
+        weather_rows_oracle(chk)
+        written_cells_oracle(chk)
     elif isinstance(case, dict) and 'tie' in case:
         exact_tie(chk)
         if chk.corr_problems:
